@@ -2,7 +2,8 @@ import NotationCore.Generated.Shape
 /-!
   C09 tie: the inventory of panic-capable sites of every package in scope — index and slice expressions on
   slices / arrays / strings, single-value type assertions, explicit panics, integer division by a
-  non-constant, non-range loops, channel operations, direct recursion, discarded error results — as
+  non-constant, non-range loops, channel operations, direct recursion, discarded error results, calls into other modules that hand back a
+  pointer without an error (nil = nothing found: `pem.Decode`) — as
   extracted from the *current* source, equals the inventory that was reviewed site by site (the review
   note is the doc comment of each lemma). A new unguarded index, assertion, loop, discarded error or
   recursive call changes the inventory and breaks the lemma of its package.
@@ -54,12 +55,17 @@ theorem panicSites_signature_internal_base :
 
 /-- reviewed: parseCertificates: `for block != nil` — each iteration's pem.Decode(rest) returns a strictly shorter rest (Props.C09: pemLoop terminates);
     Validate…CertChain: `certChain[0]` after `len(certChain) < 1` returned; `certChain[i+1]` inside `range certChain` behind `i == len-1` handling of
-    the root; `ExtKeyUsage[0]` right of `len(ExtKeyUsage) != 1 ||` -/
+    the root; `ExtKeyUsage[0]` right of `len(ExtKeyUsage) != 1 ||`; the three `pem.Decode` calls (a nil block = no PEM data): in parseCertificates the
+    first feeds `if block == nil` (DER branch) and the second is the loop's own `block != nil` condition; in ParsePrivateKeyPEM the single call is
+    followed by `if block == nil { return error }` before `block.Type` (Model.Parse.parsePrivateKeyPEM, Props.C09_parsePrivateKeyPEM_cases) -/
 theorem panicSites_x509 :
     Shape.panicSites_x509 =
-      ["parseCertificates: loop block != nil",
+      ["parseCertificates: may-be-nil pem.Decode",
+       "parseCertificates: loop block != nil",
+       "parseCertificates: may-be-nil pem.Decode",
        "ValidateCodeSigningCertChain: index certChain[0]",
        "ValidateCodeSigningCertChain: index certChain[i+1]",
+       "ParsePrivateKeyPEM: may-be-nil pem.Decode",
        "ValidateTimestampingCertChain: index certChain[0]",
        "ValidateTimestampingCertChain: index certChain[i+1]",
        "validateTimestampingExtendedKeyUsage: index cert.ExtKeyUsage[0]"] := rfl
@@ -135,10 +141,12 @@ theorem panicSites_internal_timestamp :
        "revocationResult: index certChain[i]",
        "revocationResult: index certResults[i]"] := rfl
 
-/-- reviewed: none -/
+/-- reviewed: ExtractKeySpec: `key.Curve.Params().BitSize` — for a key out of a parsed certificate crypto/x509 has set `Curve` to one of the
+    standard curves (an unknown curve is a parse error), whose `Params()` is never nil; a hand-built `ecdsa.PublicKey{}` is the caller's own object,
+    not untrusted input -/
 theorem panicSites_internal_algorithm :
     Shape.panicSites_internal_algorithm =
-      [] := rfl
+      ["ExtractKeySpec: may-be-nil key.Curve.Params"] := rfl
 
 /-- reviewed: none -/
 theorem panicSites_internal_oid :
